@@ -938,8 +938,17 @@ func evalFunctionApplication(node *jparse.FunctionApplicationNode, data reflect.
 	// evaluate it.
 	if f, ok := node.RHS.(*jparse.FunctionCallNode); ok {
 
-		f.Args = append([]jparse.Node{node.LHS}, f.Args...)
-		return evalFunctionCall(f, data, env)
+		// Note that we must not modify the parsed function call
+		// node. It is evaluated again every time this expression
+		// is evaluated.
+		args := make([]jparse.Node, 0, len(f.Args)+1)
+		args = append(args, node.LHS)
+		args = append(args, f.Args...)
+
+		return evalFunctionCall(&jparse.FunctionCallNode{
+			Func: f.Func,
+			Args: args,
+		}, data, env)
 	}
 
 	// Evaluate both sides and return any errors.
